@@ -15,7 +15,7 @@ VARIABLES ends, off, last, sel, arg
 
 E == INSTANCE Evaluator WITH NaNGuard <- TRUE
 
-TraceInit == l = 1 /\ ends = << PosZero >> /\ off = 0 /\ last = PosZero /\ sel = 0 /\ arg = PosZero
+TraceInit == TallyInit /\ l = 1 /\ ends = << PosZero >> /\ off = 0 /\ last = PosZero /\ sel = 0 /\ arg = PosZero
 
 TraceNew ==
     /\ IsEvent("new")
